@@ -27,5 +27,15 @@ Lead(c) == c.sl >= 2 * c.hh * c.dpp /\ c.el >= 2 * c.hh * c.dpp
 ColumnsDisjoint == done => \A i, j \in DOMAIN notes : notes[i].c # notes[j].c =>
     \A a \in Boxes(notes, cfg, notes[i]), b \in Boxes(notes, cfg, notes[j]) : Pixels(notes, cfg, a) \cap Pixels(notes, cfg, b) = {}
 HitsInside == (done /\ (NeedLead => Lead(cfg))) => \A i \in DOMAIN notes : notes[i].n = 0 => Inside(notes, cfg, HitBox(notes, cfg, notes[i]))
+(* beat lines (PFDrawBeatLines) on the same charts: beat length BL, divisions Divs *)
+BL == 20
+Divs == {1, 2, 4}
+\* with the lead every beat line lies on the canvas; a coarser division's lines are lines of every finer one that it divides
+LinesInside == (done /\ (NeedLead => Lead(cfg))) => \A d \in Divs : \A y \in LineRows(notes, cfg, BL, d) : y >= 0 /\ y < CanvasH(notes, cfg)
+LinesNested == done => \A d, e \in Divs : (e % d = 0) => LineTimes(notes, BL, d) \subseteq LineTimes(notes, BL, e)
+\* a hit that stands on a beat line rests on it: the line is the row just below the hit's rectangle
+HitsRestOnLines == done => \A i \in DOMAIN notes : \A d \in Divs :
+    (notes[i].n = 0 /\ notes[i].t \in LineTimes(notes, BL, d)) =>
+        LET b == HitBox(notes, cfg, notes[i]) IN LineRow(notes, cfg, notes[i].t) = b.y0 + b.h
 EmitScn == (Emit /\ done) => PrintT(ToJson([kind |-> "field", notes |-> notes, cfg |-> cfg]))
 =============================================================================
